@@ -109,8 +109,10 @@ def _branches(model, framed):
     for raw in framed:
         cls = mutate.classify(raw)
         opts = []
-        if cls in ('unrecognised', 'malformed'):
-            opts.append('Evt19')
+        # 'valid' PDUs are only required not to crash or hang here (their processing is C05's
+        # subject, and a decoder stricter than R-codec, e.g. about text encodings inside opaque
+        # fields, may legitimately refuse them): both rows are acceptable for them as well
+        opts.append('Evt19')
         if cls in ('malformed', 'valid') and raw[0] in OWN_EVENT:
             opts.append(OWN_EVENT[raw[0]])
         new = []
